@@ -353,11 +353,96 @@ func init() {
 				}
 			},
 		}
+		// texts whose raw strings span lines: the line ends inside the string are part of the value, the
+		// same on every route (here the routes are compared with READ under a module name)
+		rawForms := [][]string{
+			{"(def x ¬first@second¬)", "(def y [x ¬a@¬])", "(list x y)"},
+			{"(def x ¬{\"a\": 1,@ \"b\": 2}¬)", "(def y (str x \"!\"))", "(str x y)"},
+			{"(def x [¬a@¬ ¬@b¬ \"c\"])", "(def y (first x))", "(list x y)"},
+		}
+		eols := []struct{ name, s string }{{"LF", "\n"}, {"CRLF", "\r\n"}, {"CR LF inside the string only", "\r\n"}}
+		rawFam := &vf.Family{
+			Name: "raw-strings-across-line-ends", InProc: true,
+			Bounds: fmt.Sprintf("%d programs whose multi-line raw strings contain a line end, written with LF, with CRLF everywhere, and with CRLF inside the string only; routes READ without cursor, printed form re-read, forms one by one through REPL, load-file, each compared with READ under a module name", len(rawForms)),
+			Setup:  setup,
+			N:      func(string) int64 { return int64(len(rawForms) * len(eols)) },
+			Describe: func(i int64) string {
+				return eols[i%int64(len(eols))].name + ": " + strings.Join(rawForms[i/int64(len(eols))], " ")
+			},
+			Run: func(i int64, r *vf.Rec) {
+				forms := rawForms[i/int64(len(eols))]
+				eol := eols[i%int64(len(eols))]
+				r.NT()
+				between := eol.s
+				if eol.name == "CR LF inside the string only" {
+					between = "\n"
+				}
+				var fs []string
+				for _, f := range forms {
+					fs = append(fs, strings.ReplaceAll(f, "@", eol.s))
+				}
+				text := strings.Join(fs, between) + between
+				show := func(c c19result) string { return outStr(c.out) + " | " + c.binds }
+				refAST, err := lisp.READ(wrapDo(text), types.NewCursorFile("mod"), nil)
+				if err != nil {
+					r.Violation("program text does not read", fmt.Sprintf("%q: %v", text, err))
+					return
+				}
+				ref := rg.evalAST(refAST)
+				r.Exec(1)
+				cmp := func(route string, got c19result) {
+					r.Exec(1)
+					if show(got) != show(ref) {
+						r.ViolationCase("route "+route+" differs from READ under a module name (raw string across line ends, "+eol.name+")", fmt.Sprintf("%q", text), "reference: "+show(ref)+"\n"+route+": "+show(got))
+					}
+				}
+				if ast, err := lisp.READ(wrapDo(text), nil, nil); err == nil {
+					cmp("READ(nil cursor)+do", rg.evalAST(ast))
+				} else {
+					r.Violation("program text does not read without a cursor", fmt.Sprintf("%q: %v", text, err))
+				}
+				if ast, err := lisp.READ(lisp.PRINT(refAST), nil, nil); err == nil {
+					cmp("READ(PRINT(ast))", rg.evalAST(ast))
+				} else {
+					r.Violation("printed program does not read back", lisp.PRINT(refAST)+": "+err.Error())
+				}
+				{
+					rg.tracer.Reset()
+					scope := env.NewSubordinateEnv(rg.base)
+					var lerr error
+					var lp *lx.Panic
+					for _, f := range fs {
+						lp = lx.Guard(func() { _, lerr = lisp.REPL(context.Background(), scope, f+between, types.NewCursorFile("REPL")) })
+						if lp != nil || lerr != nil {
+							break
+						}
+					}
+					got := c19result{out: rg.outcome(nil, lerr, lp), binds: rg.bindsOf(scope)}
+					if lerr == nil && lp == nil {
+						got.out.Val = ref.out.Val // REPL returns printed text; the bindings carry the comparison
+					}
+					cmp("forms one by one through REPL", got)
+				}
+				{
+					path := filepath.Join(rg.dir, "raw prog.lisp")
+					os.WriteFile(path, []byte(text), 0o644)
+					root := lx.NewFullEnv()
+					rg.tracer.Install(root)
+					rg.tracer.Reset()
+					_, err, p := lx.Eval(context.Background(), types.List{Val: []types.MalType{types.Symbol{Val: "load-file"}, path}}, root)
+					got := c19result{out: rg.outcome(nil, err, p), binds: rg.bindsOf(root)}
+					if err == nil && p == nil {
+						got.out.Val = ref.out.Val // load-file returns nil by design; the bindings carry the comparison
+					}
+					cmp("load-file", got)
+				}
+			},
+		}
 		return &vf.Check{
 			ID: "C19", Level: "model_checking",
 			Rule:        "every program of the bounded space, rendered in every layout, is delivered through every route to the real reader/evaluator; result (or error kind and thrown payload), ordered effect trace and final bindings of x, y must equal those of the cursor-free AST built from Go; non-trivial = program with effects",
 			Assumptions: []string{"load-file always returns nil, so that route is compared on error, trace and bindings", "REPL returns the printed result, compared as printed text with map order canonicalised"},
-			Families:    []*vf.Family{fam},
+			Families:    []*vf.Family{fam, rawFam},
 		}
 	})
 }
